@@ -11,13 +11,14 @@ from pedal.sandbox.result import unwrap_value
 from pedal.assertions import runtime as R
 from pedal.assertions.commands import unit_test
 
-from c07_values import VALUES, ERRORS, Point, Dog
+from c07_values import VALUES, ERRORS, Point, Dog, SOURCES
 
 
 def student_code():
     lines = ['from c07_values import Point, Dog\n']
     for i, v in enumerate(VALUES):
         rep = 'float("%r")' % v if isinstance(v, float) and (v != v or v in (float('inf'), float('-inf'))) else repr(v)
+        rep = SOURCES.get(i, rep)
         lines.append('def give_%d():\n    return %s\n' % (i, rep))
     for j, e in enumerate(ERRORS):
         lines.append('def fail_%d():\n    raise %s\n' % (j, e))
@@ -238,7 +239,7 @@ def main():
     else:
         norm_ids = {}
     json.dump({'results': out, 'unit_tests': uts, 'n_values': len(VALUES), 'outputs': outs, 'equality': eqs, 'normal_forms': norm_ids,
-               'reprs': [('nan' if isinstance(v, float) and v != v else repr(v)) for v in VALUES]}, open(sys.argv[1], 'w'))
+               'reprs': [SOURCES.get(i, 'nan' if isinstance(v, float) and v != v else repr(v)) for i, v in enumerate(VALUES)]}, open(sys.argv[1], 'w'))
 
 
 main()
